@@ -77,7 +77,7 @@ func VerifC10Mixed() {
 	prov := vstub.NewProvider()
 	w2 := vstub.NewIdentity("w2", prov)
 	m := vstub.NewIdentity("mallory", prov)
-	ac := vstubodb.Writers("id-a", "id-w2")
+	ac := vstubodb.Writers(vstub.IDOf("a"), vstub.IDOf("w2"))
 	a, env := openAC("a", blocks, ac)
 	if a == nil {
 		return
@@ -162,7 +162,7 @@ func VerifC10Mixed() {
 	vstub.Assert(inLog(a, v2), "C10 a later valid head still replicates")
 	vstub.Assert(inLog(a, v1), "C10 its ancestry is in the log")
 	// rejected entries never enter
-	if bad.GetIdentity().ID == "id-mallory" {
+	if bad.GetIdentity().ID == vstub.IDOf("mallory") {
 		vstub.Assert(!inLog(a, bad), "C10/C03 the non-writer's entry is not in the log")
 	}
 }
